@@ -31,8 +31,56 @@ def gen_graph(r, nn):
                 if depth_of(nodes, c, memo) <= 2:
                     subs.append([c, r.random() < .62])
         nodes.append({"style": r.choice(STYLES + YIELDING), "ctx": r.random() < .75, "subs": subs,
-                      "swallow": r.random() < .15})
+                      "swallow": r.random() < .15, "user": r.random() < .2})
     return nodes
+
+
+def gen_overrides(r, nodes, tasks):
+    """broker.dependency_overrides as [original, replacement] pairs.  A replacement never reaches an overridden node
+    (the graph builder would substitute for ever)."""
+    roots = [d for t in tasks for d, _ in t["deps"]]
+    reach = reachable(nodes, roots)
+    out, keys = [], set()
+    for _ in range(r.choice([1, 1, 2])):
+        a = r.choice(reach)
+        cands = [b for b in range(len(nodes)) if b != a and b not in keys]
+        r.shuffle(cands)
+        for b in cands:
+            if not (set(reachable(nodes, [b])) & (keys | {a})) and all(
+                    a not in reachable(nodes, [b2]) for _, b2 in out) and a not in keys:
+                out.append([a, b])
+                keys.add(a)
+                break
+    return out
+
+
+def gen_override_case(r):
+    """aimed at overrides that change which dependencies are un-cached: the prepared graph of the task and the graph
+    the resolver builds per execution differ in having use_cache=False dependencies (all four combinations), with a
+    suspension in an async dependency before the un-cached one is resolved and another message received meanwhile"""
+    orig_unc, repl_unc = r.random() < .35, r.random() < .75
+    st = lambda: r.choice(STYLES + YIELDING)   # noqa: E731
+    nodes = [
+        {"style": st(), "ctx": True, "subs": [], "swallow": False, "user": r.random() < .3},                      # reader
+        {"style": r.choice(ASYNC_STYLES), "ctx": r.random() < .5, "subs": [], "swallow": False, "user": False},   # gate
+        {"style": st(), "ctx": True, "subs": [[1, True], [0, not orig_unc]], "swallow": False, "user": False},   # original
+        {"style": st(), "ctx": True, "subs": [[1, True], [0, not repl_unc]], "swallow": r.random() < .1,
+         "user": r.random() < .3},                                                                                # replacement
+    ]
+    if r.random() < .3:
+        nodes[3]["subs"].reverse()
+    tasks = [{"deps": [[2, True]] + ([[1, True]] if r.random() < .3 else []), "ctx": r.random() < .7, "sync": False}]
+    k = r.choice([2, 2, 3, 4])
+    msgs = []
+    for i in range(k):
+        m = {"task": 0, "start": i * r.choice([1000, 3000, 5000]), "pauses": [r.choice([10000, 20000, 40000])],
+             "dur": [r.choice([0, 2000])], "ackable": r.choice(["sync", "async", "none"]), "kw": r.random() < .8,
+             "outcome": r.choice(["return", "return", "raise"])}
+        msgs.append(m)
+    return {"nodes": nodes, "tasks": tasks, "msgs": msgs, "propagate": r.random() < .5,
+            "ack": r.choice(["when_received", "when_executed", "when_saved"]), "middleware": r.random() < .5,
+            "via_inmemory": r.random() < .5, "overrides": [[2, 3]] if r.random() < .9 else [],
+            "user_ctx": r.choice([None, 7, 7])}
 
 
 def reachable(nodes, roots):
@@ -45,10 +93,28 @@ def reachable(nodes, roots):
     return sorted(seen)
 
 
+def has_uncached(case, t, overridden):
+    """does the top-level graph of task t have use_cache=False sub-graphs - as prepared (overridden=False) or as the
+    resolver builds it per execution from broker.dependency_overrides (overridden=True)"""
+    ov = dict(map(tuple, case.get("overrides") or [])) if overridden else {}
+    seen, todo = set(), list(case["tasks"][t]["deps"])
+    while todo:
+        k, cached = todo.pop()
+        if not cached:
+            return True
+        k = ov.get(k, k)
+        if k not in seen:
+            seen.add(k)
+            todo += case["nodes"][k]["subs"]
+    return False
+
+
 PAUSES = [None, None, 0, 3000, 7000, 10000, 15000, 20000, 40000]
 
 
 def gen_case(r):
+    if r.random() < .12:
+        return gen_override_case(r)
     nn = r.choice([1, 2, 3, 3, 4, 4, 5, 6, 7])
     nodes = gen_graph(r, nn)
     tasks = []
@@ -91,9 +157,13 @@ def gen_case(r):
         if r.random() < .3:
             m["save_pause"] = r.choice([0, 5000, 15000])
         msgs.append(m)
-    return {"nodes": nodes, "tasks": tasks, "msgs": msgs, "propagate": r.random() < .5,
+    case = {"nodes": nodes, "tasks": tasks, "msgs": msgs, "propagate": r.random() < .5,
             "ack": r.choice(["when_received", "when_executed", "when_saved", "when_saved"]),
-            "middleware": r.random() < .8, "via_inmemory": r.random() < .3}
+            "middleware": r.random() < .8, "via_inmemory": r.random() < .3,
+            "user_ctx": r.choice([None, 7, 7])}
+    if nn >= 2 and r.random() < .25:
+        case["overrides"] = gen_overrides(r, nodes, tasks)
+    return case
 
 
 # --------------------------------------------------------------------------- derivation
@@ -211,6 +281,7 @@ def finish(case, d, log):
     d.saves = []              # (global idx, tid, summary)
     d.acks = []
     d.reads = []              # (global idx, ctx number within the execution or None, echo, what)
+    d.user_reads = []         # (global idx, node, tag of the user entry the node was given)
     d.effs = []               # Coq eff literals in order
     d.begin_at = None
     d.save_failed = False
@@ -233,6 +304,8 @@ def finish(case, d, log):
         elif k == "enter":
             if e[5] is not None:
                 d.reads.append((g, ctxnum.get(e[4]), e[5], "node %d" % e[2]))
+            if len(e) > 6 and e[6] is not None:
+                d.user_reads.append((g, e[2], e[6]))
         elif k == "fail":
             d.fail = True
             d.finish_at = g if d.finish_at is None else d.finish_at
@@ -401,6 +474,11 @@ def oracle_c06(case, d, all_execs):
             out.append(("%s of one execution observed another message's Context" % (
                 "a dependency" if what != "task" else "the task function"),
                 dict(execution=i, reader=what, saw=echo, at=g), own, {"kind": "context"}))
+    want_tag = case.get("user_ctx") if case.get("user_ctx") is not None else -1
+    for g, node, tag in d.user_reads:
+        if tag != want_tag:
+            out.append(("a dependency did not receive the user entry registered with add_dependency_context",
+                        dict(execution=i, node=node, tag=tag, at=g), want_tag, {"kind": "user"}))
     if d.body is not None:
         p = d.body[1]
         if p.get("arg") != i or p.get("kw") != (i if d.kw_sent else -1):
@@ -473,6 +551,8 @@ def c06_actions(case, ex, log):
 # --------------------------------------------------------------------------- shrinking a failing case
 def _drop_node(case, k):
     c = json.loads(json.dumps(case))
+    if c.get("overrides"):
+        c["overrides"] = [[a - (a > k), b - (b > k)] for a, b in c["overrides"] if a != k and b != k]
     ren = {j: (j if j < k else j - 1) for j in range(len(c["nodes"])) if j != k}
     del c["nodes"][k]
     for n in c["nodes"]:
@@ -511,6 +591,7 @@ def reductions(case):
     used = set()
     for t in case["tasks"]:
         used |= set(reachable(case["nodes"], [d for d, _ in t["deps"]]))
+    used |= set(reachable(case["nodes"], [b for _, b in case.get("overrides") or []]))
     unused = [k for k in range(len(case["nodes"])) if k not in used]
     if unused:
         c2 = case
@@ -556,6 +637,13 @@ def reductions(case):
                 variant(lambda c, i=i: c["msgs"][i].update(pauses=c["msgs"][i]["pauses"][:-1]))
         if m.get("ackable", "sync") != "sync":
             variant(lambda c, i=i: c["msgs"][i].update(ackable="sync"))
+    for j in range(len(case.get("overrides") or [])):
+        variant(lambda c, j=j: c["overrides"].pop(j))
+    if case.get("user_ctx") is not None:
+        variant(lambda c: c.update(user_ctx=None))
+    for k in range(len(case["nodes"])):
+        if case["nodes"][k].get("user"):
+            variant(lambda c, k=k: c["nodes"][k].update(user=False))
     if case.get("middleware", True):
         variant(lambda c: c.update(middleware=False))
     if case.get("via_inmemory"):
@@ -628,4 +716,23 @@ def grid_cases():
                                                       {"style": s1, "ctx": True, "subs": [[0, e1]], "swallow": False}],
                                             "tasks": [{"deps": [[1, e0]], "ctx": True, "sync": False}], "msgs": msgs,
                                             "propagate": prop, "ack": ack, "middleware": True, "via_inmemory": False})
+    # dependency_overrides: original / replacement with and without a use_cache=False dependency, three messages,
+    # the first two suspended in the async gate while the next one is received
+    for orig_unc in (False, True):
+        for repl_unc in (False, True):
+            for s0 in STYLES:
+                for s3 in STYLES:
+                    for sg in ASYNC_STYLES:
+                        for mw in (False, True):
+                            msgs = [{"task": 0, "start": 3000 * i, "pauses": [20000], "dur": [1000], "ackable": "sync",
+                                     "kw": True, "outcome": "return"} for i in range(3)]
+                            out.append({"nodes": [{"style": s0, "ctx": True, "subs": [], "swallow": False, "user": True},
+                                                  {"style": sg, "ctx": False, "subs": [], "swallow": False},
+                                                  {"style": "plain", "ctx": True, "subs": [[1, True], [0, not orig_unc]],
+                                                   "swallow": False},
+                                                  {"style": s3, "ctx": True, "subs": [[1, True], [0, not repl_unc]],
+                                                   "swallow": False}],
+                                        "tasks": [{"deps": [[2, True]], "ctx": True, "sync": False}], "msgs": msgs,
+                                        "propagate": True, "ack": "when_saved", "middleware": mw, "via_inmemory": True,
+                                        "overrides": [[2, 3]], "user_ctx": 7})
     return out
